@@ -20,6 +20,11 @@ VARIABLES fam,              \* "copy" | "substr" | "inplace"
           done
 vars == <<fam, x, done>>
 
+\* S: every operation specified here is a pure function of its arguments.  The library's run-time debug level is a
+\* process-wide switch (>= 1: a failed ASSERT exits the process; >= 3 and >= 5: trace statements); it is a DIMENSION of every
+\* case - each emitted case is executed at every level of DebugLevels and must yield the same result, buffers and return
+\* values, and never terminate the process - and not a parameter of any result.
+DebugLevels == <<0, 1, 3, 5>>
 NUL == 0   FILL == 126   NIL == -1
 IsSpace(c) == c \in {32, 9, 10, 11, 12, 13}
 IsCntrl(c) == c \in 0 .. 31 \/ c = 127
@@ -57,6 +62,11 @@ SafeStrncat(size, src, buf0) ==
           touched |-> n .. (n + k),
           claimed |-> TRUE]
 
+\* a destination whose declared size is at least old + src + 1 bytes, of which only the first m = old + src + 1 are modelled
+\* (and exist in the harness: the byte behind them is a guard byte): the result on those m bytes
+RoomyCopy(src, pre) == LET m == Len(pre) + Len(src) + 1  b == Buffer(m, pre) IN
+                       [buf0 |-> b, cpy |-> SafeStrncpy(m, src, b), cat |-> SafeStrncat(m, src, b)]
+
 (* substr.  S: negative idx counts from the end; outside 0..len-1 refused.  C (DESIGN.md 8a): cnt <= 0 means "up *)
 (* to |cnt| before the end", a negative resulting count is refused, an over-long count is clamped.              *)
 Substr(s, idx, cnt) ==
@@ -69,9 +79,11 @@ Substr(s, idx, cnt) ==
 
 ------------------------------------------------------------------------------------------
 (* in-place helpers: s is the string, the block is Len(s)+1 bytes; touched within 0 .. Len(s) *)
-NonBlank(s) == {k \in 1 .. Len(s) : ~IsSpace(s[k])}
+\* (first / last non-blank position found by an ascending CHOOSE whose guard fails fast: linear for TLC, also on 65 535 bytes)
+FirstNonBlank(s) == CHOOSE k \in 1 .. (Len(s) + 1) : (k = Len(s) + 1 \/ ~IsSpace(s[k])) /\ \A j \in 1 .. (k - 1) : IsSpace(s[j])
+LastNonBlank(s)  == CHOOSE k \in 0 .. Len(s) : (k = 0 \/ ~IsSpace(s[k])) /\ \A j \in (k + 1) .. Len(s) : IsSpace(s[j])
 \* S: chomp removes leading and trailing white space
-Chomp(s) == [result |-> IF NonBlank(s) = {} THEN <<>> ELSE SubSeq(s, Min(NonBlank(s)), Max(NonBlank(s))),
+Chomp(s) == [result |-> IF LastNonBlank(s) = 0 THEN <<>> ELSE SubSeq(s, FirstNonBlank(s), LastNonBlank(s)),
              touched |-> IF s = <<>> THEN {} ELSE 0 .. Len(s)]
 \* C: every run of white space becomes one blank; a blank at the very end is dropped (one at the start stays)
 \* (written without recursion so that TLC can evaluate it on texts of a thousand bytes: the kept positions are the
@@ -142,6 +154,14 @@ CopyLawsOf(size, src, pre) ==
               /\ a.ret = (CStr(a.result) = old \o src)
               /\ a.touched \subseteq 0 .. (size - 1) /\ Untouched(a, b)
         /\ ~a.claimed => a.result = b /\ a.touched = {}
+        \* SizeBeyondNeedIrrelevant: once everything fits (size >= old + src + 1) a larger size changes nothing - the strings, the
+        \* return values and the touched offsets are those of the tight size.  This is how sizes the model cannot build a buffer
+        \* for (65 536 .. INT_MAX) are specified: by their class "roomy" = the tight size (RoomyCopy below).
+        /\ LET m == Len(old) + Len(src) + 1 IN
+           (Terminated(b) /\ m <= size) =>
+              LET bt == Buffer(m, old) ct == SafeStrncpy(m, src, bt) at == SafeStrncat(m, src, bt) IN
+              /\ CStr(c.result) = CStr(ct.result) /\ c.ret = ct.ret /\ c.touched = ct.touched
+              /\ CStr(a.result) = CStr(at.result) /\ a.ret = at.ret /\ a.touched = at.touched
 SubstrLawsOf(s, idx, cnt) ==
         LET r == Substr(s, idx, cnt)  len == Len(s)
             start == IF idx < 0 THEN len + idx ELSE idx IN
